@@ -1,6 +1,10 @@
 package generator
 
-import "strings"
+import (
+	"strconv"
+	"strings"
+	"unicode/utf8"
+)
 
 func (g *Generator) ClientFile(cfg Config) GoFile {
 	return GoFile{
@@ -50,10 +54,13 @@ func (g *Generator) SpecFile(fileContent []byte) GoFile {
 }
 
 func encodeRawFileAsString(s string) string {
-	if strings.Contains(string(s), "\n") {
-		s = "`" + strings.ReplaceAll(string(s), "`", "`+\"`\"+`") + "`"
+	// A raw string literal cannot hold a backtick or a carriage return (Go drops CR from raw strings):
+	// both are spliced in as interpreted strings. Content that is not valid Go source text at all
+	// (invalid UTF-8, NUL, byte order mark) and one-line content are fully quoted.
+	if strings.Contains(string(s), "\n") && utf8.ValidString(s) && !strings.ContainsAny(s, "\x00\uFEFF") {
+		s = "`" + strings.NewReplacer("`", "`+\"`\"+`", "\r", "`+\"\\r\"+`").Replace(string(s)) + "`"
 	} else {
-		s = `"` + strings.ReplaceAll(string(s), `"`, `\"`) + `"`
+		s = strconv.Quote(s)
 	}
 	return s
 }
